@@ -676,6 +676,49 @@ static const char *check_seq_history(int kind, hop_t *all, int n, hop_t *fin) {
     return NULL;
 }
 
+/* ---- long hold: one thread sits inside lock() ... unlock() (two walks with a pause between them) for longer than the lock
+ * macro's whole wait budget (5000 failed polls) while another thread calls a mutating operation.  The operation must not
+ * complete before the holder's unlock(), and both walks must see the same contents. ------------------------------------- */
+static ctx_t LHC; static volatile int LH_done; static opspec_t LH_op;
+static void *lh_writer(void *a) { (void)a; opres_t r; do_op(&LHC, &LH_op, &r); __atomic_store_n(&LH_done, 1, __ATOMIC_SEQ_CST); return NULL; }
+static void lh_lock(ctx_t *c, bool lock) {
+    switch (c->kind) {
+    case K_TREE: lock ? c->tree->lock(c->tree) : c->tree->unlock(c->tree); break; case K_HASH: lock ? c->hash->lock(c->hash) : c->hash->unlock(c->hash); break;
+    case K_LISTTBL: case K_LISTMULTI: lock ? c->ltbl->lock(c->ltbl) : c->ltbl->unlock(c->ltbl); break; case K_LIST: lock ? c->list->lock(c->list) : c->list->unlock(c->list); break;
+    case K_QUEUE: lock ? c->queue->list->lock(c->queue->list) : c->queue->list->unlock(c->queue->list); break; case K_STACK: lock ? c->stack->list->lock(c->stack->list) : c->stack->list->unlock(c->stack->list); break;
+    case K_VECTOR: lock ? c->vec->lock(c->vec) : c->vec->unlock(c->vec); break; }
+}
+static void lh_snapshot(ctx_t *c, opres_t *w) {
+    if (c->kind == K_QUEUE || c->kind == K_STACK) { memset(w, 0, sizeof *w); qlist_t *l = c->kind == K_QUEUE ? c->queue->list : c->stack->list; for (qlist_obj_t *o = l->first; o && w->n < MAXSNAP; o = o->next) { memcpy(&w->snap[w->n], o->data, 8); w->n++; } return; }
+    opspec_t ws = {is_keyed(c->kind) ? O_WALK : O_TOARRAY, 0, 0}; do_op(c, &ws, w);
+}
+static void long_hold(long caseno) {
+    int kind = (int)(caseno % NKINDS);
+    vf_case_begin(caseno, "long hold: %s holder walks twice inside lock()..unlock() while a writer exhausts the lock-wait budget", KNAME[kind]);
+    make(&LHC, kind); vf_lock_register(LHC.mutex);
+    for (int i = 0; i < 3; i++) { opspec_t s = {is_keyed(kind) ? O_PUT : O_ADDLAST, i, 0x4141414141414100ULL + (uint64_t)i + 1}; opres_t r; do_op(&LHC, &s, &r); }
+    LH_op = (opspec_t){is_keyed(kind) ? O_PUT : O_ADDLAST, 5, 0x4242424242424242ULL}; LH_done = 0;
+    opres_t w1, w2;
+    int fast = vf_usleep_fast; vf_usleep_fast = 1;
+    lh_lock(&LHC, true);
+    lh_snapshot(&LHC, &w1);
+    long busy0 = vf_trylock_busy, spins = 0;
+    pthread_t t; pthread_create(&t, NULL, lh_writer, NULL);
+    while (vf_trylock_busy - busy0 < 12000 && !LH_done && spins++ < 400000000L) sched_yield();
+    bool reached = vf_trylock_busy - busy0 >= 12000;
+    int early = __atomic_load_n(&LH_done, __ATOMIC_SEQ_CST);
+    lh_snapshot(&LHC, &w2);
+    lh_lock(&LHC, false);
+    pthread_join(t, NULL);
+    vf_usleep_fast = fast;
+    vf_count("evaluations", 1); vf_count("long_hold_scenarios", 1); if (!reached && !early) vf_count("long_hold_budget_not_reached", 1);
+    vf_distinct("distinct", 0x77000000ULL + (uint64_t)kind);
+    char key[96];
+    if (early) { snprintf(key, sizeof key, "mutual-exclusion:%s", KNAME[kind]); vf_viol("C13", key, "%s: another thread's %s completed while the holder was still inside lock()..unlock() (after %ld failed lock polls)", KNAME[kind], ONAME[LH_op.op], vf_trylock_busy - busy0); }
+    else if (w1.n != w2.n || memcmp(w1.snap, w2.snap, sizeof(uint64_t) * (size_t)(w1.n > 0 ? w1.n : 0))) { snprintf(key, sizeof key, "locked-walk-snapshot:%s", KNAME[kind]); vf_viol("C13", key, "%s: two walks inside one lock()..unlock() saw %d and %d elements / different contents", KNAME[kind], w1.n, w2.n); }
+    vf_lock_unregister_all(); destroy(&LHC);
+}
+
 static void stress_case(long caseno) {
     rng_seed(&R, VF.seed, (uint64_t)caseno);
     S_KIND = (int)(caseno % NKINDS); S_NT = 4 + (int)rng_below(&R, 5); S_OPS = 10 + (int)rng_below(&R, (uint32_t)(400 / S_NT - 9)); if (S_OPS > SMAXOPS) S_OPS = SMAXOPS; S_CASE = caseno;
@@ -735,6 +778,7 @@ int main(int argc, char **argv) {
     bool stress = !strcmp(VF.mode, "stress");
     long ncases = vf_arg_long("cases", 112);
     long budget = vf_arg_long("budget", 3000);
+    if (!stress) for (long c = 5000000; c < 5000000 + NKINDS; c++) if (vf_mine(c)) { vf_wall_arm(600); long_hold(c); vf_wall_disarm(); }
     for (long c = 0; c < ncases; c++) { if (!vf_mine(c)) continue; vf_wall_arm(stress ? 120 : 600); if (stress) stress_case(c); else controlled_program(c, budget); vf_wall_disarm(); }
     return vf_finish() ? 1 : 0;
 }
